@@ -1,15 +1,29 @@
 #!/bin/sh
-# Developer tool: the official run of every kept seeded change against /repo itself: apply it, run its own property's check, undo it.
-# Evidence of these runs goes to a scratch directory (never to /verif/evidence).  Writes seeded/<id>/official_run.txt.
-# NOTHING ELSE may use /repo while this runs.
+# Developer tool: the official run of every kept seeded change against /repo itself with the checks as they are now: apply the change
+# (git -C /repo apply), run its own property's quick check, undo it (git -C /repo checkout -- .).  Evidence of these runs goes to a scratch
+# directory (never to /verif/evidence).  Writes seeded/<id>/official_run.txt and the "official_run" entry of seeded/<id>/meta.json.
+# NOTHING ELSE may use /repo while this runs.   usage: tools/run_seeded.sh [id-glob]
 cd /verif
-for d in seeded/*/; do
+pat=${1:-*}
+for d in seeded/$pat/; do
   id=$(basename $d); pid=$(echo $id | cut -c1-3)
   git -C /repo checkout -q -- .
   if git -C /repo apply $d/patch.diff 2>/dev/null; then
     VERIF_EVIDENCE_DIR=/tmp/seeded_evid ./check $pid --tier quick > /tmp/seeded_run.out 2>&1; rc=$?
     git -C /repo checkout -q -- .
-    { echo "git -C /repo apply seeded/$id/patch.diff; ./check $pid --tier quick; git -C /repo checkout -- .   -> exit $rc"; grep "^VIOLATION\|^\[$pid\]" /tmp/seeded_run.out | head -4; grep "^   \[" /tmp/seeded_run.out | head -2; } > $d/official_run.txt
+    { echo "git -C /repo apply seeded/$id/patch.diff; ./check $pid --tier quick; git -C /repo checkout -- .   -> exit $rc"; grep "^VIOLATION\|^\[$pid\]" /tmp/seeded_run.out | head -4; grep "^   \[\|^   " /tmp/seeded_run.out | head -2 | cut -c1-400; } > $d/official_run.txt
+    python3 - "$d" "$rc" <<'PY'
+import json, sys, re, subprocess
+d, rc = sys.argv[1], int(sys.argv[2])
+out = open("/tmp/seeded_run.out").read()
+viol = [l for l in out.splitlines() if l.startswith("VIOLATION")]
+m = json.load(open(d + "meta.json"))
+m["official_run"] = {"verif_commit": subprocess.run(["git", "-C", "/verif", "rev-parse", "--short", "HEAD"], capture_output=True, text=True).stdout.strip(),
+                     "command": f"git -C /repo apply seeded/{m['id']}/patch.diff && ./check {m['breaks_property']} --tier quick; git -C /repo checkout -- .",
+                     "exit": rc, "caught": rc == 1, "with_concrete_failing_input": rc == 1 and bool(viol) and not all("no-failing-input-found" in v for v in viol),
+                     "first_violation": next((l.strip()[:300] for l in out.splitlines() if l.startswith("   ")), None)}
+json.dump(m, open(d + "meta.json", "w"), indent=1)
+PY
     echo "$id exit=$rc"
   else
     echo "$id patch does not apply to /repo HEAD" | tee $d/official_run.txt
